@@ -43,10 +43,10 @@ func intParts(quick bool) []string {
 		s.add(rep("1", k))
 		s.add(rep("9", k))
 		s.add("1" + rep("0", k-1))
-		if !quick || k >= 18 {
+		if (!quick && k >= 9) || k >= 18 {
 			s.add(mixedDigits[:k])
 		}
-		if !quick || k >= 19 {
+		if (!quick && k >= 17) || k >= 19 {
 			s.add(rep("5", k)) // 19 digits fit int64, one more digit wraps uint64 back below MaxInt64
 		}
 	}
@@ -95,6 +95,11 @@ func fracParts(quick bool) []string {
 		for _, n := range []int{18, 19, 20} {
 			s.add(rep("0", n))
 		}
+		// the accumulator thresholds apply to the fraction digits as well
+		for _, b := range []string{"9223372036854775807", "9223372036854775808", "18446744073709551615", "18446744073709551616",
+			"9223372036854775800", "09223372036854775808"} {
+			s.add(b)
+		}
 		return s.list
 	}
 	for _, f := range []string{"125", "0625", "123456789", "10", "100", "50"} {
@@ -104,9 +109,6 @@ func fracParts(quick bool) []string {
 	for z := 0; z <= 21; z++ {
 		s.add(rep("0", z) + "1")
 		s.add(rep("0", z) + "9")
-		if z+2 <= 23 {
-			s.add(rep("0", z) + "12")
-		}
 	}
 	// long runs without leading zeros around every threshold
 	for _, n := range []int{16, 17, 18, 19, 20, 21, 22, 23} {
@@ -127,6 +129,15 @@ func fracParts(quick bool) []string {
 	// leading zeros up to the total bound
 	for _, z := range []int{10, 17, 18, 19, 20, 21} {
 		s.add(rep("0", z) + rep("9", 23-z))
+	}
+	// the accumulator thresholds (BigLimit, MaxInt64, MaxUint64) apply to the fraction digits as well
+	for _, b := range []string{"9223372036854775806", "9223372036854775807", "9223372036854775808",
+		"18446744073709551614", "18446744073709551615", "18446744073709551616", "922337203685477579", "922337203685477581"} {
+		s.add(b)
+		s.add("0" + b)
+	}
+	for d := 0; d <= 9; d++ {
+		s.add("922337203685477580" + strconv.Itoa(d))
 	}
 	// all-zero fractions
 	for _, n := range []int{2, 17, 18, 19, 20, 21, 23} {
